@@ -107,6 +107,10 @@ def check_property(prop_id, tier, seed):
                 discharged += 1
         if not (ok_prop and assum_ok):
             discharged = 0
+        # 4b. thorough tier: independent re-check of the compiled development with coqchk (axiom summary into the evidence)
+        coqchk = None
+        if tier == 'thorough' and ok_prop:
+            coqchk = core.run_coqchk(prop_id)
         # 5. C-tie
         evaluations = 0
         distinct = set()
@@ -194,6 +198,8 @@ def check_property(prop_id, tier, seed):
             broken.append(('axiom', f'theorem {thm} depends on axioms outside the trusted base: {foreign}', ''))
         if bad_vernac:
             broken.append(('audit', f'forbidden vernacular: {bad_vernac[:5]}', ''))
+        if coqchk is not None and not coqchk['ok']:
+            broken.append(('coqchk', f'coqchk rejects ScaredV.Props.{prop_id} or reports axioms outside the trusted base', coqchk['tail']))
         for e in harness_errors:
             broken.append(('correspondence', 'a cases file did not evaluate in Coq', e))
         real_violations = [v for v in violations]
@@ -215,6 +221,8 @@ def check_property(prop_id, tier, seed):
             'tie': {'translators': ttie, 'c_tie_ran': ok_model}, 'notes': notes,
             'build_s': round(t_model + t_prop, 1), 'exhaustive': bool(getattr(mod, 'EXHAUSTIVE', False)),
         }
+        if coqchk is not None:
+            coverage['coqchk'] = {k: coqchk[k] for k in ('ok', 'cmd', 'axioms', 'wall_s')}
         if hasattr(mod, 'coverage_extra'):
             coverage.update(mod.coverage_extra())
         core.write_evidence(prop_id, tier, seed, coverage, getattr(mod, 'ASSUMPTIONS', []), time.time() - t0, len(real_violations))
